@@ -952,6 +952,16 @@ func (c *evalCtx) evalCall(x *ECall) TVal {
 			t = "(concat " + strings.Join(parts, " ") + ")"
 		}
 		return TVal{V: Sc{t, BV(8 * n)}, T: types.Typ[types.Uint64]}
+	case "arccount":
+		return TVal{V: Sc{sel(c.ex.comp(c.st, "Ghost_arcCount", ArrS(SRef, BV(64))), z64()), BV(64)}, T: types.Typ[types.Int]}
+	case "arcname":
+		k := arg(0)
+		nm := c.ex.comp(c.st, "Ghost_arcName", ArrS(SRef, ArrS(BV(64), SStr)))
+		return TVal{V: Sc{sel(sel(nm, z64()), c.idx64(k)), SStr}, T: types.Typ[types.String]}
+	case "arccontent":
+		k := arg(0)
+		ct := c.ex.comp(c.st, "Ghost_arcContent", ArrS(SRef, ArrS(BV(64), BV(64))))
+		return TVal{V: Sc{sel(sel(ct, z64()), c.idx64(k)), BV(64)}, T: types.Typ[types.Uint64]}
 	case "udpcount":
 		return TVal{V: Sc{sel(c.ex.comp(c.st, "Ghost_udpCount", ArrS(SRef, BV(64))), z64()), BV(64)}, T: types.Typ[types.Int]}
 	case "udpat":
